@@ -1,9 +1,16 @@
 """C03 - variable scoping follows the configured context behaviour.
 
-Reference semantics: coq/Core/Sem.v (fill_state / comp_state)   Theorems: coq/Props/C03.v
-Correspondence: programs whose variable names are all distinct (plus unbound "probe" references), then the same
-program with TWO binders merged into one name (a collision of a known pair of roles), both context behaviours, `only`
-on/off.  Direct oracle on the implementation: the caller's Context is left exactly as found.
+Reference semantics: coq/Core/Sem.v (fill_state / comp_state)   Theorems: coq/Props/C03.v (Core/ScopeProofs.v, Core/CtxStack.v)
+Correspondence: generated programs whose variable names are all distinct (plus unbound "probe" reads), then the same
+program with TWO names merged (collisions chosen around fills / component tags, plus random pairs), both context
+behaviours, `only` on some tags and - in django mode - on all tags; expected output = reference scoping evaluated in Coq.
+Direct oracles on the implementation (independent of the model):
+  * the caller's Context is left exactly as found (layer count, flatten(), render_context depth, keys per layer);
+  * two-run non-interference: the same program rendered with two page contexts / component data that differ only in
+    variables that are never passed (page variable read by component templates, component data read by the caller's fill
+    content) gives identical output when components are isolated (isolated mode; django mode with `only` on every tag).
+A failing program is named by the root-cause class it belongs to (c03_util.classes: predicates on the program text);
+a failure outside every class is reported as `c03-<mode>-unclassified`.
 """
 import json
 import os
@@ -11,7 +18,9 @@ import os
 import common as C
 import core_run as R
 import genprog as G
-from c01 import fix_prog, possible_kinds
+import c03_ref as PR
+import c03_util as U
+from c01 import fix_prog
 
 IMPORTS = "From DJC Require Import Lib.Base Core.Syntax Core.Sem."
 CORPUS = os.path.join(C.VERIF, "corpus", "C03")
@@ -22,31 +31,19 @@ def has_only(prog):
     return any(t[0] == "comp" and t[3] for t in nodes)
 
 
-def strip_only(prog):
-    def ts(l):
-        out = []
-        for t in l:
-            k = t[0]
-            if k == "comp":
-                t = ("comp", t[1], t[2], False, ts(t[4]))
-            elif k == "if":
-                t = ("if", t[1], ts(t[2]), ts(t[3]))
-            elif k in ("for", "with", "provide"):
-                t = t[:3] + (ts(t[3]),)
-            elif k == "slot":
-                t = t[:5] + (ts(t[5]),)
-            elif k == "fill":
-                t = t[:4] + (ts(t[4]),)
-            out.append(t)
-        return out
+def set_only(prog, value=True):
+    def f(t):
+        if t[0] == "comp":
+            return [("comp", t[1], t[2], value, t[4])]
+        return [t]
     q = dict(prog)
-    q["page"] = ts(prog["page"])
-    q["lib"] = [(n, dict(cd, tpl=ts(cd["tpl"]))) for n, cd in prog["lib"]]
+    q["page"] = U.map_tpls(prog["page"], f)
+    q["lib"] = [(n, dict(cd, tpl=U.map_tpls(cd["tpl"], f))) for n, cd in prog["lib"]]
     return q
 
 
 def gen_cases(chk, n, mode):
-    """yields (tag, program) - tag = 'fresh' or 'A~B' (roles of the merged binders)"""
+    """yields (kind, base_index, program); kind = fresh | all-only | ni-A | <relation of the merged names>"""
     r = chk.rng
     for i in range(n):
         small = i < n // 3
@@ -54,66 +51,150 @@ def gen_cases(chk, n, mode):
                   depth=2 if small else 3, only=0.15, probes=0.25, loops=0.35)
         p = g.program()
         yield ("fresh", i, p)
+        if mode == "django":
+            yield ("all-only", i, set_only(p))
+        # targeted collisions: names related through a fill / component tag
+        tp = U.targeted_pairs(p)
+        by_rel = {}
+        for rel, a, b in tp:
+            by_rel.setdefault(rel, []).append((a, b))
+        rels = sorted(by_rel)
+        r.shuffle(rels)
+        for rel in rels[:4]:
+            a, b = r.choice(by_rel[rel])
+            q = G.rename(p, b, a)
+            yield (rel, i, q)
+            if mode == "django" and r.random() < 0.25:
+                yield (rel + "/all-only", i, set_only(q))
+        # random collisions (roles of the merged binders)
         names = G.names_of(p)
         keys = sorted(names)
-        if len(keys) < 2:
-            continue
-        for _ in range(3):
-            a, b = r.sample(keys, 2)
-            if names[a] == "p" and names[b] == "p":
-                continue
-            if names[a] == "u" and names[b] == "u":
-                continue
-            if names[b] == "p":          # keep page-context keys stable: rename the other one
-                a, b = b, a
-            yield ("~".join(sorted([names[a], names[b]])), i, G.rename(p, b, a))
+        if len(keys) >= 2:
+            for _ in range(2):
+                a, b = r.sample(keys, 2)
+                if names[a] == names[b] and names[a] in ("p", "u"):
+                    continue
+                if names[b] == "p" or (names[a] == "u" and names[b] != "u"):
+                    a, b = b, a
+                yield ("rnd:" + "~".join(sorted([names[a], names[b]])), i, G.rename(p, b, a))
+
+
+def same_outcome(o, ref):
+    """implementation outcome vs reference outcome, errors compared as 'raises' (classes are C01's subject)"""
+    if o[0] == "ok" or ref[0] == "ok":
+        return o == ref
+    return not o[1].startswith("other:") and ref[1] != "OutOfFuel"
 
 
 def evaluate(chk, cases, tag):
-    """run implementation + model for every case; returns list of (tag, idx, prog, impl_outcome, agrees)"""
+    """run implementation + reference (Coq) for every case; rows = [kind, idx, prog, impl_outcome, agrees]"""
     rows, terms = [], []
-    for ctag, idx, prog in cases:
+    for kind, idx, prog in cases:
         rep = []
         o = R.render_page(prog, ctx_report=rep)
-        rows.append([ctag, idx, prog, o, None])
-        # direct oracle: the caller's Context is left as found (dicts, flatten, render_context depth)
+        rows.append([kind, idx, prog, o, None])
+        # direct oracle: the caller's Context is left as found (dicts, flatten, render_context depth, keys per layer)
         if rep and rep[0][0] != rep[0][1] and o[0] == "ok":
             chk.fail("c03-caller-context-changed", "Template.render left the caller's Context changed",
                      {"program": prog, "before": rep[0][0], "after": rep[0][1]})
         if o[0] == "err" and o[1].startswith("other:"):
-            # hang / RecursionError / foreign exception: never what the reference says; classified like an output difference
-            terms.append("(%s, OErr ERuntime)" % G.c_prog(prog) if False else None)
+            # hang / RecursionError / foreign exception: never what the reference says
+            terms.append(None)
             rows[-1][4] = False
         else:
             terms.append("(%s, %s)" % (G.c_prog(prog), R.c_outcome(o)))
-    idx = [i for i, t in enumerate(terms) if t is not None]
-    bad = set(C.coq_eval_cases("C03", tag, IMPORTS, "core_case", "check_core_lenient", [terms[i] for i in idx], shard=150)) if idx else set()
-    for j, i in enumerate(idx):
+    live = [i for i, t in enumerate(terms) if t is not None]
+    bad = set(C.coq_eval_cases("C03", tag, IMPORTS, "core_case", "check_core_lenient", [terms[i] for i in live], shard=150)) if live else set()
+    for j, i in enumerate(live):
         rows[i][4] = j not in bad
+    # self-check of the python port of the reference (used for shrinking only)
+    for row in rows:
+        if same_outcome(row[3], PR.render_prog(row[2])) != row[4]:
+            chk.disagree("harness self-check: harness/c03_ref.py (python port of Core/Sem.v) and the Coq evaluation of Sem.v "
+                         "disagree on whether the implementation matches", {"program": row[2], "implementation": row[3],
+                                                                            "python_port": PR.render_prog(row[2]), "coq_agrees": row[4]})
     return rows
 
 
-def classify(chk, mode, rows):
-    fresh_ok = {r[1]: r[4] for r in rows if r[0] == "fresh"}
-    for ctag, idx, prog, o, ok in rows:
+def trigger_of(prog):
+    ks = U.classes(prog)
+    return ks[0] if ks else "c03-%s-unclassified" % prog["mode"], ks
+
+
+def shrink(prog, trig, budget=400):
+    """smallest program (greedy node deletion) that still differs from the reference AND stays in the same class"""
+    def still(q):
+        o = R.render_page(q)
+        return (not same_outcome(o, PR.render_prog(q))) and trigger_of(q)[0] == trig
+    try:
+        return G.shrink_prog(prog, still, budget=budget)
+    except Exception:
+        return prog
+
+
+def describe(prog):
+    return {"page": G.d_tpls(prog["page"]), "components": {n: G.d_tpls(cd["tpl"]) for n, cd in prog["lib"]},
+            "data": {n: cd["data"] for n, cd in prog["lib"]}, "ctx": prog["ctx"], "mode": prog["mode"]}
+
+
+def classify(chk, mode, rows, reported):
+    for kind, idx, prog, o, ok in rows:
         feats = G.features(prog)
-        nontriv = "fill" in feats and ("comp-nested" in feats or "comp-in-loop" in feats) and ctag != "fresh"
-        chk.count(json.dumps(prog, sort_keys=True), nontriv, kind="%s/%s" % (mode, ctag),
-                  sample={"mode": mode, "collision": ctag, "page": G.d_tpls(prog["page"]),
+        collision = kind not in ("fresh", "all-only", "ni-A", "corpus")
+        nontriv = "fill" in feats and ("comp-nested" in feats or "comp-in-loop" in feats) and collision
+        chk.count(json.dumps(prog, sort_keys=True), nontriv, kind="%s/%s" % (mode, kind.split(":")[0].split("/")[0]),
+                  sample={"mode": mode, "collision": kind, "page": G.d_tpls(prog["page"]),
                           "components": {n: G.d_tpls(cd["tpl"]) for n, cd in prog["lib"]}, "output": o[1][:160]}
                   if nontriv and len(G.d_tpls(prog["page"])) < 220 else None)
         if ok:
             continue
-        if ctag == "fresh":
-            trig = "c03-%s-distinct-names%s" % (mode, "-only" if has_only(prog) else "")
-            what = "output differs from the lexical reference although all variable names are distinct"
-        elif not fresh_ok.get(idx, True):
-            continue   # already reported for the collision-free original
+        trig, ks = trigger_of(prog)
+        chk.dist["differs:" + trig] += 1
+        what = "output differs from the reference scoping (%s variant); root-cause classes of the program: %s" % (kind, ks or "none")
+        if trig not in reported:
+            # first failure of this class in this run: minimise it for the replay
+            reported[trig] = True
+            small = shrink(prog, trig)
+            chk.fail(trig, what, {"program": small, "shrunk_from_variant": kind, "implementation": R.render_page(small),
+                                  "reference_python_port": PR.render_prog(small), "classes": ks, **describe(small)})
         else:
-            trig = "c03-%s-collision-%s%s" % (mode, ctag, "-only" if has_only(prog) else "")
-            what = "output differs from the reference scoping once two binders (%s) share a name" % ctag
-        chk.fail(trig, what, {"program": prog, "page": G.d_tpls(prog["page"]),
-                              "components": {n: G.d_tpls(cd["tpl"]) for n, cd in prog["lib"]}, "implementation": o})
+            chk.fail(trig, what, {"program": prog, "implementation": o, "classes": ks, **describe(prog)})
+
+
+def noninterference(chk, mode, bases, reported):
+    """two-run oracle on the implementation: same program, unpassed values differ => identical output"""
+    n = 0
+    for idx, p in bases:
+        q = p if mode == "isolated" else set_only(p)
+        a, b = U.ni_variant(q, "A"), U.ni_variant(q, "B")
+        oa, ob = R.render_page(a), R.render_page(b)
+        n += 1
+        chk.count(("ni", json.dumps(a, sort_keys=True)), "fill" in G.features(a) and "comp-nested" in G.features(a), kind="%s/ni-pair" % mode)
+        if oa != ob:
+            trig, ks = trigger_of(a)
+            if not ks:
+                trig = "c03-%s-noninterference" % mode
+            chk.dist["ni-differs:" + trig] += 1
+            if trig in reported:
+                chk.fail(trig, "two-run non-interference fails", {"program": a, "classes": ks})
+                continue
+            reported[trig] = True
+
+            def still(x):
+                if trigger_of(x)[0] != trig and ks:
+                    return False
+                y = json.loads(json.dumps(x).replace('"SA"', '"SB"').replace('"UA"', '"UB"'))
+                return R.render_page(x) != R.render_page(fix_prog(y))
+            try:
+                small = G.shrink_prog(a, still, budget=300)
+            except Exception:
+                small = a
+            sb = fix_prog(json.loads(json.dumps(small).replace('"SA"', '"SB"').replace('"UA"', '"UB"')))
+            chk.fail(trig, "two-run non-interference fails: two runs that differ only in values never passed (page variable zu_page, "
+                           "component data zs_<c>) give different output although every component is rendered isolated",
+                     {"program": small, "program_run_B": sb, "run_A": R.render_page(small), "run_B": R.render_page(sb),
+                      "classes": ks, **describe(small)})
+    return n
 
 
 def corpus_cases():
@@ -122,7 +203,11 @@ def corpus_cases():
         for f in sorted(os.listdir(CORPUS)):
             if f.endswith(".json"):
                 d = json.load(open(os.path.join(CORPUS, f)))
-                out.append((d.get("collision", "fresh"), f, fix_prog(d["program"])))
+                prog = fix_prog(d["program"])
+                want = d.get("class")
+                if want and want not in U.classes(prog):
+                    raise C.HarnessError("corpus/C03/%s: program is not in its recorded class %s (classes: %s)" % (f, want, U.classes(prog)))
+                out.append(("corpus", f, prog))
     return out
 
 
@@ -132,25 +217,43 @@ def run(tier, seed):
     djsetup.patch_ids()
     chk = C.Check("C03", tier, seed)
     chk.prove()
-    n = 1500 if tier == "thorough" else 220
+    n = 1500 if tier == "thorough" else 200
     cc = corpus_cases()
+    reported = {}
+    nni = 0
     for mode in ("isolated", "django"):
         rows = evaluate(chk, [c for c in cc if c[2]["mode"] == mode], "corpus" + mode[:3])
-        classify(chk, mode, rows)
-        rows = evaluate(chk, list(gen_cases(chk, n, mode)), mode[:3])
-        classify(chk, mode, rows)
+        classify(chk, mode, rows, reported)
+        cases = list(gen_cases(chk, n, mode))
+        bases = [(i, p) for k, i, p in cases if k == "fresh"]
+        # the run-A program of each non-interference pair is also a correspondence case (fills that read inner data,
+        # templates that read an unpassed page variable and forloop)
+        cases += [("ni-A", i, U.ni_variant(p if mode == "isolated" else set_only(p), "A")) for i, p in bases]
+        rows = evaluate(chk, cases, mode[:3])
+        classify(chk, mode, rows, reported)
+        nni += noninterference(chk, mode, bases, reported)
+    chk.extra["noninterference_pairs"] = nni
+    chk.extra["root_cause_classes"] = U.CLASS_TEXT
     chk.assumptions = [
         "get_context_data is a total function of the keyword arguments; page context values are strings / lists of strings",
         "documented built-ins (True/False/None, component_vars) are not counted as leaks; `forloop` is treated as a variable bound by its loop",
         "errors are compared as 'raises' only (exception classes are C01's subject)",
+        "the statement is read as lexical scoping with innermost-binder-wins: with-variables between tag and fill extend the fill's scope "
+        "like loop variables do (the implementation captures both; the statement names only loops)",
     ]
     return chk.finish(
-        rule="%d programs per context behaviour with pairwise distinct variable names and unbound probe references (only flag on ~15%% of tags), each also in up to 3 "
-             "variants where two binders chosen at random (page variable p, component data d, with w, loop i, slot-data alias sd, default alias df, probe u) are "
-             "merged into one name; expected output = reference scoping evaluated inside Coq. Non-trivial = a collision variant of a program with a fill and a "
-             "nested or looped component. Distinct = distinct program text." % n,
-        explanation="theorems of Props/C03.v re-checked; reference scoping evaluated by vm_compute for every program; caller-Context fingerprint compared before/after each render.",
-        extra_trusted=["modelled, not verified: Django Context push/pop/flatten; snapshot_context is abstracted (the reference semantics is pure)"])
+        rule="%d programs per context behaviour with pairwise distinct variable names and unbound probe reads (`only` on ~15%% of tags; in django mode also "
+             "the variant with `only` on every tag), each also in up to 6 variants where two names are merged: up to 4 pairs related through a fill or a "
+             "component tag (with/for variable between tag and fill vs data of the owner / of the inner component / enclosing binders; fill alias vs inner "
+             "names / reads of slot defaults; loop variable vs binders inside the loop; probe read in a fill or in a component template vs a name bound "
+             "around the tag) and 2 random pairs; plus the run-A program of the non-interference pair. Expected output = reference scoping evaluated inside "
+             "Coq. Two-run non-interference and caller-Context fingerprint evaluated on the implementation directly. Non-trivial = a collision variant of a "
+             "program with a fill and a nested or looped component (for the pairs: a fill and a nested component). Distinct = distinct program text." % n,
+        explanation="theorems of Props/C03.v re-checked; reference scoping evaluated by vm_compute for every program; two-run non-interference "
+                    "(isolated mode; django mode with `only` everywhere) and caller-Context fingerprint compared on the implementation.",
+        extra_trusted=["modelled, not verified: Django Context push/pop/flatten; snapshot_context is abstracted (the reference semantics is pure; "
+                       "Core/CtxStack.v models the layer-stack discipline of render_func / ComponentNode only)",
+                       "harness/c03_util.py: the class predicates that name the trigger of a FAILING program (a failure outside every class is unclassified = VIOLATION)"])
 
 
 def replay(path):
@@ -166,6 +269,13 @@ def replay(path):
         print("component", n, "data", cd["data"])
         print("   ", G.d_tpls(cd["tpl"]))
     print("page:", G.d_tpls(prog["page"]))
-    print("implementation:", R.render_page(prog))
-    print("reference:     ", D.model_outcome(prog))
+    print("root-cause classes of the program:", U.classes(prog))
+    rep = []
+    print("implementation:", R.render_page(prog, ctx_report=rep))
+    if rep:
+        print("caller context unchanged:", rep[0][0] == rep[0][1])
+    print("reference (Coq):", D.model_outcome(prog))
+    if "program_run_B" in r["case"]:
+        pb = fix_prog(r["case"]["program_run_B"])
+        print("run B (unpassed values changed):", R.render_page(pb))
     return 0
